@@ -443,9 +443,23 @@ def scenario(rec, rng, cid):
         a, b = twins()
         kw = fit_settings(rng)
         case["settings"] = kw
+        failed_first = bool(rng.random() < .3)
+        if failed_first:
+            # the first fit is unsuccessful (three points for three free
+            # parameters): results absent, settings and hash present
+            kw = {"segment": kw["segment"], "weight_cp": kw["weight_cp"]}
+            case["settings"] = dict(kw, first_fit="unsuccessful")
         for t in (a, b):
             t.apply_preprocessing(list(pipe))
-            t.fit_model(model_key=spec["model"], **copy.deepcopy(kw))
+            if failed_first:
+                xs_ = np.sort(np.asarray(t["tip position"])[
+                    np.asarray(t["segment"]) == kw["segment"]])
+                j_ = xs_.size // 3
+                kw["range_x"] = [float(xs_[j_]), float(xs_[j_ + 2])]
+            try:
+                t.fit_model(model_key=spec["model"], **copy.deepcopy(kw))
+            except BaseException:  # noqa
+                pass
         compare(a, b, "after-first-call")
         pa = g.call("get_initial_fit_parameters",
                     a.get_initial_fit_parameters)
